@@ -10,8 +10,9 @@ R02a  hand-over.  The token sequence travels whole from the lexer to the root ma
       ``parse_rendered`` gives ``_parse_tokens`` the first element of ``_lex_templated_file``'s
       result (whose only filter is decided by R01b); ``_parse_tokens`` gives ``<parser>.parse`` its
       ``tokens`` parameter and ``Parser.parse`` gives ``root_parse`` its ``segments`` parameter —
-      as they are or through ``tuple()`` / ``list()`` / an unfiltered identity comprehension,
-      never a slice, a filtered view or a list mutated on the way; the tree handed back at each
+      as they are or through ``tuple()`` / ``list()`` / an identity comprehension (unfiltered, or
+      dropping nothing but ``is_meta`` segments, which the property leaves out of the
+      comparison), never a slice, another filtered view or a list mutated on the way; the tree handed back at each
       level is the callee's result, and the ``ParsedVariant`` stores that tree and those errors.
 R02b  root assembly.  Every ``return`` of ``BaseFileSegment.root_parse`` builds the file segment
       from pieces that tile the ``segments`` parameter symbolically: reading the concatenation
@@ -79,10 +80,17 @@ def _peel(e: ast.AST) -> ast.AST:
             continue
         if isinstance(e, (ast.ListComp, ast.GeneratorExp)) and len(e.generators) == 1:
             g = e.generators[0]
-            if not g.ifs and isinstance(g.target, ast.Name) and isinstance(e.elt, ast.Name) and e.elt.id == g.target.id:
+            if isinstance(g.target, ast.Name) and isinstance(e.elt, ast.Name) and e.elt.id == g.target.id and all(_drops_only_metas(t, g.target.id) for t in g.ifs):
                 e = g.iter
                 continue
         return e
+
+
+def _drops_only_metas(test: ast.AST, var: str) -> bool:
+    """``not <var>.is_meta``: the filter can only drop zero-width meta segments, which the
+    property statement leaves out of the comparison."""
+    fs = atoms(test, True)
+    return len(fs) == 1 and fs[0][1] is False and isinstance(fs[0][0], ast.Attribute) and fs[0][0].attr == "is_meta" and isinstance(fs[0][0].value, ast.Name) and fs[0][0].value.id == var
 
 
 def _whole_sources(cfg, e: ast.AST, at, _seen=None) -> List[Tuple[str, object, tuple]]:
@@ -282,6 +290,9 @@ class _Tiler:
                 ch = self._slice_stop_start(inner, os_[0].stmt)
                 if ch is not None:
                     return ch
+                # a local (or a plain copy of it) with one defining expression: that expression
+                # identifies the value, whatever the local is called
+                return ("o", id(inner), e.id)[:2] + (norm(inner)[:40],)
             return self.vkey(e, at)
         ch = self._slice_stop_start(e, at)
         if ch is not None:
@@ -311,10 +322,13 @@ class _Tiler:
             if not ds:
                 raise _Unknown(f"'{e.id}' has no definition")
             for d in ds:
-                if d.kind != "assign" or d.path:
-                    raise _Unknown(f"'{e.id}' is bound by {d.kind}")
+                val, path = d.value, d.path
+                while path and isinstance(val, (ast.Tuple, ast.List)) and isinstance(path[0], int) and path[0] < len(val.elts):
+                    val, path = val.elts[path[0]], path[1:]
+                if d.kind != "assign" or path:
+                    raise _Unknown(f"'{e.id}' is bound by {d.kind}" + (" (unpacking of a non-display)" if path else ""))
                 eqs = self.path_eqs(d.stmt)
-                for a in self.alts(d.value, d.stmt):
+                for a in self.alts(val, d.stmt):
                     out.append(_Alt(a.pieces, a.eqs + eqs, a.limits))
             return out
         if isinstance(e, ast.BinOp) and isinstance(e.op, ast.Add):
@@ -348,11 +362,16 @@ class _Tiler:
         if isinstance(e, ast.Tuple):
             cur = [_Alt([])]
             for el in e.elts:
+                el_at = at
+                if isinstance(el, ast.Name):
+                    os_ = origins(self.cfg, el, at)
+                    if len(os_) == 1 and os_[0].kind == "expr" and not os_[0].path:
+                        el, el_at = os_[0].expr, os_[0].stmt
                 if isinstance(el, ast.Starred):
                     sub = self.alts(el.value, at)
                 elif isinstance(el, ast.Call) and (el.args or kwarg(el, "segments") is not None) and last_attr(el)[:1].isupper():
                     inner = kwarg(el, "segments") or el.args[0]
-                    sub = [_Alt([(p[0], p[1], f"{last_attr(el)}({p[2]})") for p in a.pieces], a.eqs, a.limits) for a in self.alts(inner, at)]
+                    sub = [_Alt([(p[0], p[1], f"{last_attr(el)}({p[2]})") for p in a.pieces], a.eqs, a.limits) for a in self.alts(inner, el_at)]
                     for a in sub:
                         if len(a.pieces) != 1:
                             raise _Unknown(f"constructor over a concatenation: {short(el, 50)}")
@@ -410,6 +429,8 @@ def _show_point(p) -> str:
         return p[1]
     if p[0] == "stop":
         return f"{p[1][1]}.matched_slice.stop"
+    if p[0] == "o":
+        return p[2]
     if p[0] == "rel":
         return f"{_show_point(p[1])}+{_show_point(p[2])}"
     return p[1]
@@ -441,9 +462,11 @@ def _r02b(chk, repo) -> None:
                     chk.fail("R02b", c, f"the children of the file segment are a filtered view ({short(a0, 60)}): tokens can be left out", detail="file segment children filtered")
                     continue
                 raise AnalysisError(f"R02b: cannot interpret the children of the file segment in root_parse ({u}); the shape changed, re-confirm by hand")
+            here = tiler.path_eqs(cfg.stmt_of(c))
             for alt in alts:
                 n_alts += 1
                 uf: Dict[tuple, tuple] = {}
+                alt.eqs = alt.eqs + here
                 for x, y in alt.eqs:
                     rx, ry = _find(uf, x), _find(uf, y)
                     if rx != ry:
@@ -493,47 +516,112 @@ def _loop_entry(cfg, loop):
     return None
 
 
+def _collector(chk, fn, cfg, l, tree_ok) -> Optional[str]:
+    """Check one loop over ``<tree>.iter_unparsables()`` in ``fn``; returns the name of the list
+    that receives one SQLParseError per unparsable (None after a finding)."""
+    recv = l.iter.func.value if isinstance(l.iter.func, ast.Attribute) else None
+    srcs = _whole_sources(cfg, recv, l) if recv is not None else []
+    chk.require(tree_ok(srcs), "R02c", l, f"the unparsable sections are collected from {_describe(srcs)}, not from the tree parser.parse returned", detail="unparsables of the parsed tree")
+    if l.iter.args or l.iter.keywords:
+        chk.fail("R02c", l, "iter_unparsables is called with arguments (a filter?)", detail="iter_unparsables() without arguments")
+    apps = []
+    for c in calls_in(l):
+        if last_attr(c) == "append" and c.args and isinstance(c.func, ast.Attribute) and isinstance(c.func.value, ast.Name):
+            errs = [(c.args[0], cfg.stmt_of(c))] if not isinstance(c.args[0], ast.Name) else [(o.expr, o.stmt) for o in origins(cfg, c.args[0], cfg.stmt_of(c)) if o.kind == "expr" and not o.path]
+            if errs and all(
+                isinstance(x, ast.Call) and last_attr(x) == "SQLParseError" and kwarg(x, "segment") is not None and for_origin(cfg, kwarg(x, "segment"), xs) == (l, ())
+                for x, xs in errs
+            ):
+                apps.append(c)
+    chk.require(len(apps) >= 1, "R02c", l, "no SQLParseError(segment=<the unparsable>) is appended in the loop over the unparsable sections", detail="PRS error created per unparsable")
+    if not apps:
+        return None
+    app_stmts = [cfg.stmt_of(a) for a in apps]
+    start = _loop_entry(cfg, l)
+    skip = start is None or cfg.paths_avoiding(start, l, lambda n: any(n is s for s in app_stmts))
+    chk.require(not skip, "R02c", l, "an unparsable section can pass the loop without a PRS error being recorded (the append is conditional)", detail="every unparsable becomes a PRS error")
+    for n in walk_local(l):
+        if isinstance(n, (ast.Break, ast.Return)):
+            chk.fail("R02c", n, "the loop over the unparsable sections is left early: later sections get no PRS error", detail=f"unparsable loop left early: {type(n).__name__.lower()}")
+    lists = {a.func.value.id for a in apps}
+    if len(lists) != 1:
+        chk.fail("R02c", l, "the PRS errors of the unparsable sections go to several lists", detail="one PRS error list")
+        return None
+    name = lists.pop()
+    for k, node in mutations_of(fn, name):
+        if k not in ("append", "extend", "augassign"):
+            chk.fail("R02c", node, f"the PRS error list is changed by '{k}'", detail=f"PRS error list {k}")
+    return name
+
+
+def _unparsable_loops(f):
+    return [l for l in walk_local(f) if isinstance(l, ast.For) and isinstance(l.iter, ast.Call) and last_attr(l.iter) == "iter_unparsables"]
+
+
 def _r02c(chk, repo) -> None:
     pt = repo.fn(LINTER, "Linter._parse_tokens")
     cfg = cfg_of(pt)
-    loops = [l for l in walk_local(pt) if isinstance(l, ast.For) and isinstance(l.iter, ast.Call) and last_attr(l.iter) == "iter_unparsables"]
-    chk.require(bool(loops), "R02c", pt, "_parse_tokens does not walk <tree>.iter_unparsables(): unparsable sections would produce no PRS error", detail="_parse_tokens walks iter_unparsables()")
-    chk.count("R02c.unparsable_loops", len(loops))
-    for l in loops:
-        recv = l.iter.func.value if isinstance(l.iter.func, ast.Attribute) else None
-        srcs = _whole_sources(cfg, recv, l) if recv is not None else []
-        good = bool(srcs) and all(k == "expr" and isinstance(x, ast.Call) and last_attr(x) == "parse" and not p for k, x, p in srcs)
-        chk.require(good, "R02c", l, f"the unparsable sections are collected from {_describe(srcs)}, not from the tree parser.parse returned", detail="unparsables of the parsed tree")
-        if l.iter.args or l.iter.keywords:
-            chk.fail("R02c", l, "iter_unparsables is called with arguments (a filter?)", detail="iter_unparsables() without arguments")
-        apps = []
-        for c in calls_in(l):
-            if last_attr(c) == "append" and c.args and isinstance(c.func, ast.Attribute) and isinstance(c.func.value, ast.Name):
-                errs = [(c.args[0], cfg.stmt_of(c))] if not isinstance(c.args[0], ast.Name) else [(o.expr, o.stmt) for o in origins(cfg, c.args[0], cfg.stmt_of(c)) if o.kind == "expr" and not o.path]
-                if errs and all(
-                    isinstance(x, ast.Call) and last_attr(x) == "SQLParseError" and kwarg(x, "segment") is not None and for_origin(cfg, kwarg(x, "segment"), xs) == (l, ())
-                    for x, xs in errs
-                ):
-                    apps.append(c)
-        chk.require(len(apps) >= 1, "R02c", l, "no SQLParseError(segment=<the unparsable>) is appended in the loop over the unparsable sections", detail="PRS error created per unparsable")
-        if not apps:
+    from_parse = lambda srcs: bool(srcs) and all(k == "expr" and isinstance(x, ast.Call) and last_attr(x) == "parse" and not p for k, x, p in srcs)  # noqa: E731
+    rets = [r for r in walk_local(pt) if isinstance(r, ast.Return) and isinstance(r.value, ast.Tuple) and len(r.value.elts) == 2 and not _is_none(r.value.elts[0])]
+    # (i) the loop sits in _parse_tokens itself
+    found = []  # (list name in pt that receives the errors, the statement every tree-return must pass)
+    for l in _unparsable_loops(pt):
+        name = _collector(chk, pt, cfg, l, from_parse)
+        if name is not None:
+            found.append((name, l))
+    # (ii) or in a helper of the tree that _parse_tokens calls with the parsed tree and whose
+    #      returned list it adds to the list it returns
+    n_loops = len(_unparsable_loops(pt))
+    for c in calls_in(pt):
+        r = callee(repo, c)
+        if r is None or not isinstance(r[1], FuncNode) or r[1] is pt:
             continue
-        app_stmts = [cfg.stmt_of(a) for a in apps]
-        start = _loop_entry(cfg, l)
-        skip = start is None or cfg.paths_avoiding(start, l, lambda n: any(n is s for s in app_stmts))
-        chk.require(not skip, "R02c", l, "an unparsable section can pass the loop without a PRS error being recorded (the append is conditional)", detail="every unparsable becomes a PRS error")
-        for n in walk_local(l):
-            if isinstance(n, (ast.Break, ast.Return)):
-                chk.fail("R02c", n, "the loop over the unparsable sections is left early: later sections get no PRS error", detail=f"unparsable loop left early: {type(n).__name__.lower()}")
-        lists = {a.func.value.id for a in apps}
-        rets = [r for r in walk_local(pt) if isinstance(r, ast.Return) and isinstance(r.value, ast.Tuple) and len(r.value.elts) == 2 and not _is_none(r.value.elts[0])]
+        h = r[1]
+        hl = _unparsable_loops(h)
+        if not hl:
+            continue
+        n_loops += len(hl)
+        hcfg = cfg_of(h)
+        hparams = [a.arg for a in h.args.posonlyargs + h.args.args if a.arg not in ("self", "cls")]
+
+        def tree_is_param(srcs, c=c, hparams=hparams):
+            if not (srcs and all(k == "param" and not p for k, x, p in srcs)):
+                return False
+            for k, x, p in srcs:
+                a = arg_of(c, hparams.index(x), x) if x in hparams else None
+                if a is None or not from_parse(_whole_sources(cfg, a, cfg.stmt_of(c))):
+                    return False
+            return True
+
+        for l in hl:
+            name = _collector(chk, h, hcfg, l, tree_is_param)
+            if name is None:
+                continue
+            hrets = [x for x in walk_local(h) if isinstance(x, ast.Return)]
+            back = bool(hrets) and all(isinstance(x.value, ast.Name) and x.value.id == name and must_pass(hcfg, hcfg.entry, x, [l]) for x in hrets)
+            chk.require(back, "R02c", h, f"{h.name} does not return the list of PRS errors it built on every path", detail=f"{h.name}: returns the PRS error list")
+            st = cfg.stmt_of(c)
+            tgt = None
+            if isinstance(st, ast.AugAssign) and isinstance(st.op, ast.Add) and st.value is c and isinstance(st.target, ast.Name):
+                tgt = st.target.id
+            par = getattr(c, "_parent", None)
+            if isinstance(par, ast.Call) and last_attr(par) == "extend" and isinstance(par.func, ast.Attribute) and isinstance(par.func.value, ast.Name) and par.args and par.args[0] is c:
+                tgt = par.func.value.id
+            if isinstance(st, ast.Assign) and st.value is c and len(st.targets) == 1 and isinstance(st.targets[0], ast.Name):
+                tgt = st.targets[0].id
+            chk.require(tgt is not None, "R02c", c, f"the PRS errors returned by {h.name} are not added to a list of _parse_tokens", detail="helper's PRS errors are kept")
+            if tgt is not None and back:
+                found.append((tgt, st))
+    chk.count("R02c.unparsable_loops", n_loops)
+    chk.require(bool(found) or n_loops > 0, "R02c", pt, "_parse_tokens does not walk <tree>.iter_unparsables(): unparsable sections would produce no PRS error", detail="_parse_tokens walks iter_unparsables()")
+    for name, via in found:
         for r in rets:
             e1 = r.value.elts[1]
-            good = isinstance(e1, ast.Name) and e1.id in lists and not [1 for k, node in mutations_of(pt, e1.id) if k not in ("append", "extend", "augassign")]
+            good = isinstance(e1, ast.Name) and e1.id == name
             chk.require(good, "R02c", r, "the list returned next to the tree is not the list the PRS errors were appended to", detail="PRS errors returned with the tree")
-            chk.require(must_pass(cfg, cfg.entry, r, [l]), "R02c", r, "a tree can be returned without its unparsable sections having been collected", detail="tree returned only after the unparsable loop")
+            chk.require(must_pass(cfg, cfg.entry, r, [via]), "R02c", r, "a tree can be returned without its unparsable sections having been collected", detail="tree returned only after the unparsable loop")
             if isinstance(e1, ast.Name):
-                rb = [d for d in cfg.reaching().defs_at(r, e1.id) if not (d.kind == "assign" and isinstance(d.value, ast.List) and not d.value.elts) and d.kind != "aug"]
+                rb = [d for d in cfg.reaching().defs_at(r, e1.id) if not (d.kind == "assign" and isinstance(d.value, ast.List) and not d.value.elts) and d.kind != "aug" and d.stmt is not via]
                 chk.require(not rb, "R02c", r, "the error list is rebound between the loop and the return", detail="PRS error list not rebound")
 
     # ---- every iter_unparsables definition ---------------------------------------------
@@ -572,11 +660,25 @@ def _r02c(chk, repo) -> None:
                     and isinstance(inner[0].value.value.func, ast.Attribute) and isinstance(inner[0].value.value.func.value, ast.Name)
                     and inner[0].value.value.func.value.id == v and not inner[0].value.value.args
                 )
+                if not rec_ok and len(inner) == 1 and isinstance(inner[0], ast.For) and isinstance(inner[0].target, ast.Name):
+                    # for s in self.segments: for u in s.iter_unparsables(): yield u
+                    l2 = inner[0]
+                    it2 = l2.iter
+                    rec_ok = (
+                        isinstance(it2, ast.Call) and last_attr(it2) == "iter_unparsables" and not it2.args and isinstance(it2.func, ast.Attribute)
+                        and isinstance(it2.func.value, ast.Name) and it2.func.value.id == v and len(l2.body) == 1 and isinstance(l2.body[0], ast.Expr)
+                        and isinstance(l2.body[0].value, ast.Yield) and isinstance(l2.body[0].value.value, ast.Name) and l2.body[0].value.value.id == l2.target.id
+                    )
                 if not it_ok:
                     why = f"walks {short(l.iter, 40)}, not self.segments itself"
                 elif not rec_ok:
                     why = "does not hand on every child's iter_unparsables() unconditionally"
                 ok = it_ok and rec_ok and not l.orelse
+            if not ok:
+                selective = any(isinstance(x, (ast.If, ast.IfExp, ast.Continue, ast.Break, ast.Return)) or (isinstance(x, ast.comprehension) and x.ifs) or (isinstance(x, ast.Subscript) and isinstance(x.slice, ast.Slice)) for x in ast.walk(f))
+                has_rec = any(isinstance(x, ast.Call) and last_attr(x) == "iter_unparsables" for x in ast.walk(f))
+                if has_rec and not selective and loops and attr_chain(_peel(loops[0].iter)) == ("self", "segments"):
+                    raise AnalysisError(f"R02c: {q} walks self.segments in a shape this rule does not know; re-confirm by hand")
             chk.require(ok, "R02c", f, f"{q} {why}: unparsable sections below it would get no PRS error", detail=f"{q}: unfiltered traversal")
             n_trav += ok
     chk.count("R02c.iter_unparsables_definitions", n_defs)
@@ -869,6 +971,23 @@ ANYOF = "src/sqlfluff/core/parser/grammar/anyof.py"
 SEGRAW = "src/sqlfluff/core/parser/segments/raw.py"
 SEGBRK = "src/sqlfluff/core/parser/segments/bracketed.py"
 
+_TAIL_OLD = (
+    "                    child_matches += (\n"
+    "                        MatchResult(\n"
+    "                            # The unparsable section is just the remaining\n"
+    "                            # segments we were unable to match from the\n"
+    "                            # sequence.\n"
+    "                            matched_slice=slice(_idx, _stop_idx),\n"
+    "                            matched_class=UnparsableSegment,\n"
+    "                            # TODO: We should come up with a better \"expected\" string\n"
+    "                            # than this\n"
+    "                            segment_kwargs={\"expected\": \"Nothing here.\"},\n"
+    "                        ),\n"
+    "                    )\n"
+    "                    # Match up to the end.\n"
+    "                    matched_idx = _stop_idx\n"
+)
+
 VARIANTS: List[Variant] = [
     # ---- behaviour-preserving edits: the check must stay quiet -------------------------------
     Variant(
@@ -903,16 +1022,16 @@ VARIANTS: List[Variant] = [
     ),
     Variant(
         "quiet-greedy-tail-bound-assigned-first", SEQ,
-        "                if _stop_idx > _idx:\n                    child_matches += (\n",
-        "                if _stop_idx > _idx:\n                    tail_stop = _stop_idx\n                    child_matches += (\n",
-        "QUIET", None, "an unused alias before the child is added",
+        _TAIL_OLD,
+        "                    # Match up to the end.\n                    matched_idx = _stop_idx\n" + _TAIL_OLD.replace("                    # Match up to the end.\n                    matched_idx = _stop_idx\n", ""),
+        "QUIET", None, "the parent's new end is assigned before the child is added (independent statements swapped)",
     ),
     # ---- breaking edits -------------------------------------------------------------------------
     Variant(
-        "metas-filtered-before-parsing", LINTER,
+        "non-code-filtered-before-parsing", LINTER,
         "                tuple(tokens),\n                fname=fname,\n",
-        "                tuple(t for t in tokens if not t.is_meta),\n                fname=fname,\n",
-        "R02a", "_parse_tokens", "template placeholders never reach the tree",
+        "                tuple(t for t in tokens if t.is_code or t.is_meta),\n                fname=fname,\n",
+        "R02a", "_parse_tokens", "whitespace and comments never reach the tree",
     ),
     Variant(
         "root-parse-gets-sliced-sequence", PARSER,
@@ -989,7 +1108,7 @@ VARIANTS: List[Variant] = [
     Variant(
         "node-built-from-filtered-children", SEGBASE,
         "        return cls(segments=result_segments, **segment_kwargs)\n",
-        "        return cls(segments=tuple(s for s in result_segments if not s.is_type(\"end_of_file\")), **segment_kwargs)\n",
+        "        return cls(segments=tuple(s for s in result_segments if not s.is_comment), **segment_kwargs)\n",
         "R02d", "BaseSegment.from_result_segments",
     ),
     Variant(
